@@ -48,3 +48,18 @@ package resource
 //@   assert@call String#* : found && $arg1 == val && (len($arg0) == 0 || ($arg0[0] != ' ' && $arg0[len($arg0)-1] != ' '))
 //@   assert@call NewSchemaless#* : (len(invalid) > 0) == (err != nil) && len(attrs) + len(invalid) == len(pairs)
 //@   loop#1 invariant len(attrs) + len(invalid) == $k && 0 <= len(attrs) && 0 <= len(invalid)
+
+// fromEnv.Detect: whenever one of the two variables is set, the result is Merge(resource from OTEL_RESOURCE_ATTRIBUTES,
+// resource from OTEL_SERVICE_NAME) - in this order, so that the service name wins - also when the attribute list was only
+// partially parsable (the parse error is reported besides the merged resource, it does not replace it)
+//@ ghost var detMerged int
+//@ func (fromEnv) Detect(ctx context.Context) (r *Resource, err error)
+//@   prop C19
+//@   overflow assumed
+//@   unchecked frame fresh resources are built
+//@   modifies ghost detMerged
+//@   ghost@entry : detMerged = 0
+//@   assert@call Merge#* : $arg0 == r2 && $arg1 == res && detMerged == 0 && (svcName == "" ==> res == nil)
+//@   ghost@call Merge#* : detMerged = detMerged + 1
+//@   assert@return#* : (attrs == "" && svcName == "") || detMerged == 1
+//@   assert@return#2 : $ret0 == res
